@@ -86,6 +86,13 @@ class Gen:
                 return ("asg", r.choice(sorted(writable)), self.expr(scopes, 2))
             return ("ex", self.expr(scopes, 2))
         if k < 0.5:
+            if r.random() < 0.35:
+                # an element store `ra[i] = e;` — arrays are values, so it writes the variable: refused for the final array `rf`
+                arr = "ra"
+                if self.inject and self.injected is None and r.random() < 0.3:
+                    self.injected = "final-write"
+                    arr = "rf"
+                return ("ex", ("st", arr, self.expr(scopes, 1, True, True), self.expr(scopes, 1, True, True)))
             return ("ex", self.expr(scopes, 2))
         if k < 0.58:
             return ("echo", self.expr(scopes, 2))
@@ -109,6 +116,12 @@ class Gen:
                 init = ("skip",)
             cond = self.expr(inner, 1, False)
             inc = self.expr(inner, 1, True)
+            if r.random() < 0.15:
+                arr = "ra"
+                if self.inject and self.injected is None and r.random() < 0.3:
+                    self.injected = "final-write"
+                    arr = "rf"
+                inc = ("st", arr, self.expr(inner, 1, False), self.expr(inner, 1, False))
             return ("for", init, cond, inc, ("scope", self.block(inner + [{}], depth - 1)))
         # ternary statement: branches are single simple statements
         vis2 = self.visible(scopes)
@@ -134,7 +147,9 @@ class Gen:
 
     def program(self):
         scopes = [{}]
-        return self.block(scopes, 3)
+        body = self.block(scopes, 3)
+        # two arrays every program can store into: `ra` and the final `rf` (never named by the random part)
+        return ("seq", ("decl", 0, "ra", ("lit",)), ("seq", ("decl", 1, "rf", ("lit",)), body))
 
 
 def code(t):
@@ -148,6 +163,8 @@ def code(t):
         return ["as", t[1]] + code(t[2])
     if k == "un":
         return ["un"] + code(t[1])
+    if k == "st":
+        return ["st", t[1]] + code(t[2]) + code(t[3])
     if k == "bin":
         return ["bin"] + code(t[1]) + code(t[2])
     if k == "seq":
@@ -181,6 +198,8 @@ def rex(t):
         return "%s++" % t[1]
     if k == "as":
         return "(%s = %s)" % (t[1], rex(t[2]))
+    if k == "st":
+        return "(%s[%s] = %s)" % (t[1], rex(t[2]), rex(t[3]))
     if k == "un":
         if (len(t) > 2 and t[2]) or t[1][0] == "as":
             return "((int) %s)" % rex(t[1])
@@ -199,14 +218,16 @@ def rst(t, ind="    "):
     if k == "scope":
         return ind + "{\n" + rst(t[1], ind + "    ") + ind + "}\n"
     if k == "decl":
+        if t[2] in ("ra", "rf"):
+            return ind + "%sint[] %s = {1, 2, 3};\n" % ("final " if t[1] else "", t[2])
         return ind + "%sint %s%s;\n" % ("final " if t[1] else "", t[2], (" = " + rex(t[3])) if t[3] is not None else "")
     if k == "asg":
         return ind + "%s = %s;\n" % (t[1], rex(t[2]))
     if k == "ex":
         e = rex(t[1])
         # an expression statement must be a call, assignment or ++; others are wrapped in an echo-free use
-        if t[1][0] in ("as", "pp"):
-            return ind + (e[1:-1] if t[1][0] == "as" else e) + ";\n"
+        if t[1][0] in ("as", "pp", "st"):
+            return ind + (e[1:-1] if t[1][0] in ("as", "st") else e) + ";\n"
         return ind + "sink(%s);\n" % e
     if k == "echo":
         return ind + "echo(%s);\n" % rex(t[1])
@@ -220,7 +241,7 @@ def rst(t, ind="    "):
     if k == "for":
         init = rst(t[1], "").strip() if t[1][0] != "skip" else ";"
         inc = rex(t[3])
-        if t[3][0] == "as":
+        if t[3][0] in ("as", "st"):
             inc = inc[1:-1]
         return ind + "for (%s %s > 1000; %s)\n" % (init, rex(t[2]), inc) + rst(t[4], ind)
     if k == "tern":
